@@ -23,6 +23,23 @@ PROPS = {
                        "the text, literal matches form a chain and are character-aligned in valid UTF-8, character = string pattern, a chain "
                        "of splits refines the previous stage. Tied to src/config/split.rs and Configuration::split by differential runs.",
     },
+    "C12": {
+        "level": "proof",
+        "rule": "CMAP_LOAD ops: generated blobs (0..6 units, truncated, inconsistent size fields, minimal sizes 0/1/3/4 bytes) and the "
+                "blobs of generated tries; NORMS ops (normalization of a slot whose configuration is the map alone): 200 (quick) / 5000 "
+                "(thorough) generated double-array tries over a pool of keys incl. multi-character and combining sequences, each key "
+                "alone, followed by a combining mark and inside a ZWJ sequence, random texts; the shipped XLNet map (both sources) over "
+                "20k scalar values in four contexts plus U+2FA00..U+2FA2F (quick) / every Unicode scalar value (thorough). Judged by the "
+                "leftmost-longest specification (Spec.normalizeSpec) and the blob layout. Non-trivial: non-empty input.",
+        "trusted_base": CORE_TB + ["modelled, not verified: bstr grapheme segmentation (boundaries recorded through verif-hooks), bstr lossy "
+                                   "decoding of replacement strings (modelled)"],
+        "assumptions": ["LeavesInRange for the equalities with the specification (decidable; true of builder-written maps); totality, "
+                        "prefix_sound and normalize_untouched hold for every map", "NUL-free text for normalize_eq_spec (the search stops at NUL)"],
+        "explanation": "Lean theorems: blob round trip incl. the last unit, loader totality and layout, common-prefix search = exact-match keys, "
+                       "transform = longest key occurrence, normalize = leftmost-longest specification for every text and grapheme "
+                       "segmentation, characters the map does not mention are unchanged, a key followed by other characters keeps them. "
+                       "Three genuine defects were found here and repaired (F4, F14, F16). Tied to src/charsmap.rs by differential runs.",
+    },
     "C13": {
         "level": "proof",
         "rule": "exhaustive token sequences up to length 5 (quick) / 7 (thorough) over 3 ids x all Strip/Pad/Truncate "
@@ -111,6 +128,10 @@ def nontrivial(prop, request, impl):
         return impl != "OK " + parts[2]
     if op in ("WP", "BPE", "UNI", "ENC"):
         return impl not in ("OK -",)
+    if op in ("NORMS",):
+        return parts[4] != "-"
+    if op == "CMAP_LOAD":
+        return True
     if op == "SPLIT":
         return parts[2] != "-"
     if op == "DEC":
